@@ -8,7 +8,7 @@ use rosu_map::section::hit_objects::{HitObject, HitObjectKind, HitObjects, HitOb
 use rosu_map::section::timing_points::SamplePoint;
 use rosu_map::{DecodeBeatmap, DecodeState};
 
-pub const RULE: &str = "generated maps: object lines sorted and unsorted (with more than 20 equal start times), breaks before/between/after objects (sorted and unsorted, short and long), timing and inherited points around object times, all four modes, integer times; oracle from the property text on HitObjects decoding: stable order, first object after each break, closed-form velocity and duration, sample defaults from the sample point 5 ms after the end / after each node, and integer time shifts in [-10^6, 10^6]; non-trivial = at least 3 objects and one slider or break; distinct = distinct texts";
+pub const RULE: &str = "generated maps: object lines sorted and unsorted (with more than 20 equal start times), breaks before/between/after objects (sorted and unsorted, short and long), timing and inherited points around object times, all four modes, integer times; oracle from the property text on HitObjects decoding: stable order, first object after each break, closed-form velocity and duration, sample defaults from the sample point 5 ms after the end / after each node, and integer time shifts in [-10^6, 10^6], including a stream of sliders with realistic SliderMultiplier / beat length / length whose sample points sit at (and next to) end + 5 and node time + 5 -- the boundary of T15d for integer times, finding D29; non-trivial = at least 3 objects and one slider or break; distinct = distinct texts";
 
 #[derive(Clone)]
 pub struct Map {
@@ -371,6 +371,7 @@ pub fn check_shift(m: &Map, k: i64, out: &mut Out) {
         out.fail("", &desc, "shifted file has a different number of objects");
         return;
     }
+    let sample_times: Vec<f64> = a.control_points.sample_points.iter().map(|p| p.time).collect();
     for (x, y) in a.hit_objects.iter_mut().zip(b.hit_objects.iter_mut()) {
         if x.start_time + kf != y.start_time {
             out.fail("", &desc, &format!("start time {} + {} != {}", x.start_time, k, y.start_time));
@@ -379,7 +380,10 @@ pub fn check_shift(m: &Map, k: i64, out: &mut Out) {
         let mut x2 = x.clone();
         x2.start_time = y.start_time;
         if x2 != *y {
-            out.fail("", &desc, &format!("object at {} differs after the shift beyond its time: {:?} vs {:?}", x.start_time, x, y));
+            // D29 only: the object is a slider one of whose look-up times lies in the rounding window
+            // below a sample point, and nothing but sample volumes / banks / custom indices differs
+            let class = if slider_lookup_in_window(x, &sample_times) && only_samples_differ(&x2, y) { "D29" } else { "" };
+            out.fail(class, &desc, &format!("object at {} differs after the shift beyond its time: {:?} vs {:?}", x.start_time, x, y));
             return;
         }
         if let (HitObjectKind::Slider(s1), HitObjectKind::Slider(s2)) = (&mut x.kind, &mut y.kind) {
@@ -411,6 +415,173 @@ pub fn check_shift(m: &Map, k: i64, out: &mut Out) {
     cmp_points!(sample_points, ());
 }
 
+
+// ---------------------------------------------------------------------------
+// sliders at integer times: D29.  A slider's duration spans * dist / velocity is in general not
+// a whole number; its sample point is looked up at fl(fl(start + o) + 5), o = the duration, and
+// for node i at o = i * duration / spans.  Whether a sample point at the whole time T is seen is
+// decided by the exact number start + o + 5 EXCEPT when that number lies in a window of rounding
+// size just below T: then it depends on how the two additions round, i.e. on the magnitude of
+// start, i.e. on the shift.  The class is decided exactly: for whole start and T below 2^32,
+// T - 5 - start and T - 5 - start - 2^-20 are f64 numbers, and
+//     T - 2^-20 < start + o + 5 < T   <=>   T - 5 - start - 2^-20 < o < T - 5 - start.
+
+const WINDOW: f64 = 9.5367431640625e-7; // 2^-20 ms
+
+fn in_window(o: f64, start: f64, t: f64) -> bool {
+    let m = t - 5.0 - start;
+    o < m && o > m - WINDOW
+}
+
+/// `h` is a slider (whole start time) one of whose look-up offsets is in the window below a sample-point time
+pub fn slider_lookup_in_window(h: &mut HitObject, sample_times: &[f64]) -> bool {
+    let start = h.start_time;
+    if start.fract() != 0.0 || start.abs() >= 4294967296.0 {
+        return false;
+    }
+    let HitObjectKind::Slider(ref mut s) = h.kind else { return false };
+    let spans = (s.repeat_count + 1) as f64;
+    let d = s.duration();
+    let mut offsets = vec![d];
+    for i in 0..s.node_samples.len() {
+        offsets.push(i as f64 * d / spans);
+    }
+    offsets.iter().any(|&o| sample_times.iter().any(|&t| t.fract() == 0.0 && t.abs() < 4294967296.0 && in_window(o, start, t)))
+}
+
+/// the two objects (start times already equalised) differ in nothing but what a sample point
+/// supplies: volume, bank, custom index / suffix of their samples and node samples
+fn only_samples_differ(x: &HitObject, y: &HitObject) -> bool {
+    fn strip(h: &HitObject) -> HitObject {
+        let mut h = h.clone();
+        let wipe = |v: &mut Vec<HitSampleInfo>| {
+            for s in v.iter_mut() {
+                s.volume = 0;
+                s.bank = SampleBank::None;
+                s.custom_sample_bank = 0;
+                s.suffix = None;
+            }
+        };
+        wipe(&mut h.samples);
+        if let HitObjectKind::Slider(ref mut s) = h.kind {
+            for n in s.node_samples.iter_mut() {
+                wipe(n);
+            }
+        }
+        h
+    }
+    strip(x) == strip(y)
+}
+
+/// 1..4 sliders far apart with realistic parameters; green lines at (and next to) end + 5 and node time + 5
+pub fn gen_boundary_map(r: &mut Rng) -> Map {
+    let mode = *r.pick(&[0u8, 0, 0, 1, 2, 3]);
+    let slider_mult = r.pick(&["1.4", "1", "1.8", "2", "0.7", "1.2", "1.6", "2.4", "3.6", "0.4", "1.85", "1.7", "1.3", "2.2", "1.5"]).to_string();
+    let bl = r.pick(&["500", "400", "300", "333.33", "375", "428.57", "600", "461.54", "250", "1000", "352.94"]).to_string();
+    let mut timing = vec![(-1000i64, bl, 1u8, 100, true, 0u8)];
+    if r.chance(1, 3) {
+        timing.push((-500, r.pick(&["-100", "-50", "-200", "-133.33", "-80"]).to_string(), 2, 70, false, 0));
+    }
+    let n = r.range(1, 4) as usize;
+    let mut objects = vec![];
+    let mut t = r.range(0, 5000);
+    for _ in 0..n {
+        let x = r.range(0, 300) as i32;
+        let y = r.range(0, 384) as i32;
+        let mut len = format!("{}", if r.chance(1, 2) { r.range(2, 80) * 7 } else { r.range(10, 600) });
+        let repeats = r.range(1, 3) as i32;
+        // duration (and velocity) of this slider with length text `l`, read off the implementation on a
+        // one-slider map with the same timing lines
+        let probe = |l: &str| -> Option<(f64, f64)> {
+            let pm = Map {
+                mode,
+                general_extra: String::new(),
+                slider_mult: slider_mult.clone(),
+                breaks: vec![],
+                timing: timing.clone(),
+                objects: vec![Obj { x, y, t, kind: 1, new_combo: false, sound: 0, path: format!("L|{}:{}", x + 100, y), repeats, len: l.to_string(), end: t, extras: "0:0:0:0:".into() }],
+            };
+            decode(&pm.text(0)).and_then(|mut v| match v.hit_objects.first_mut().map(|h| &mut h.kind) {
+                Some(HitObjectKind::Slider(s)) => Some((s.duration(), s.velocity)),
+                _ => None,
+            })
+        };
+        let hair_below = |d: f64| d < d.round() && d.round() - d < 1e-9;
+        match r.below(3) {
+            // whole lengths, as the editor writes them: hunt for a duration a hair below a whole number
+            0 => {
+                for _ in 0..64 {
+                    let cand = format!("{}", if r.chance(1, 2) { r.range(2, 80) * 7 } else { r.range(10, 600) });
+                    if probe(&cand).map_or(false, |(d, _)| hair_below(d)) {
+                        len = cand;
+                        break;
+                    }
+                }
+            }
+            // fractional length aimed at a whole duration, nudged down ulp by ulp
+            1 => {
+                if let Some((_, vel)) = probe("100") {
+                    let target = r.range(50, 3000) as f64;
+                    let l0 = target * vel / (repeats + 1) as f64;
+                    if l0.is_finite() && l0 > 1.0 && l0 < 100_000.0 {
+                        for j in 0..8u64 {
+                            let cand = format!("{}", f64::from_bits(l0.to_bits() - j));
+                            if probe(&cand).map_or(false, |(d, _)| hair_below(d)) {
+                                len = cand;
+                                break;
+                            }
+                        }
+                    }
+                }
+            }
+            _ => {}
+        }
+        objects.push(Obj {
+            x,
+            y,
+            t,
+            kind: 1,
+            new_combo: r.chance(1, 5),
+            sound: *r.pick(&[0u8, 2, 4, 8, 10]),
+            path: format!("L|{}:{}", x + 100, y),
+            repeats,
+            len,
+            end: t,
+            extras: r.pick(&["0:0:0:0:", "1:2:0:0:", "2:0:0:0:"]).to_string(),
+        });
+        t += r.range(20_000, 60_000);
+    }
+    let mut m = Map { mode, general_extra: String::new(), slider_mult, breaks: vec![], timing, objects };
+    // read the durations off the implementation, then put sample points at the boundaries
+    if let Some(mut v) = decode(&m.text(0)) {
+        let mut vols = [37, 61, 12, 88, 45, 73, 29, 54];
+        vols.rotate_left(r.below(8));
+        let mut vi = 0;
+        for h in v.hit_objects.iter_mut() {
+            let start = h.start_time as i64;
+            if let HitObjectKind::Slider(ref mut s) = h.kind {
+                let spans = (s.repeat_count + 1) as f64;
+                let d = s.duration();
+                if !d.is_finite() || d.abs() > 1e7 {
+                    continue;
+                }
+                let mut offs = vec![d];
+                for i in 1..s.node_samples.len() {
+                    if r.chance(1, 2) {
+                        offs.push(i as f64 * d / spans);
+                    }
+                }
+                for o in offs {
+                    let delta = *r.pick(&[0i64, 0, 0, 1, -1]);
+                    let tt = start + o.round() as i64 + 5 + delta;
+                    m.timing.push((tt, "-100".to_string(), r.below(4) as u8, vols[vi % 8], false, r.below(3) as u8));
+                    vi += 1;
+                }
+            }
+        }
+    }
+    m
+}
 
 // ---------------------------------------------------------------------------
 // fractional times: D20.  With non-integer times the decimal shift t -> t + k
@@ -513,6 +684,34 @@ pub fn generate(tier: &str, seed: u64, out: &mut Out) {
         out.count(if m.fractional() { "frac.fractional" } else { "frac.integer" });
         if i % 8 == 0 {
             decoders::model_case(7, &m.text(0), out, "c15-frac");
+        }
+    }
+    // sliders at integer times with sample points at / next to end + 5 and node time + 5 (D29)
+    for i in 0..n {
+        let m = gen_boundary_map(&mut r);
+        check_map(&m, out);
+        // the rounding of start + duration changes with the binade of the sum: shifts that bring a
+        // slider close to time 0 (where the sum is exact) and shifts far away from it
+        let k = match i % 6 {
+            0 => 1000,
+            1 => 1_000_000,
+            2 => -r.pick(&m.objects).t + r.range(-40, 40),
+            3 => *r.pick(&[1i64, 7, -3, 64, 4096, -1_000_000]),
+            4 => r.range(-1_000_000, 1_000_000),
+            _ => -r.pick(&m.objects).t + r.range(0, 3000),
+        };
+        check_shift(&m, k, out);
+        let in_win = decode(&m.text(0)).map_or(false, |mut v| {
+            let st: Vec<f64> = v.control_points.sample_points.iter().map(|p| p.time).collect();
+            v.hit_objects.iter_mut().any(|h| slider_lookup_in_window(h, &st))
+        });
+        out.count(if in_win { "boundary.in-window" } else { "boundary.clear" });
+        if i % 4 == 0 {
+            if decoders::MODEL_DECODERS.contains(&7) {
+                decoders::model_case(7, &m.text(0), out, "c15-boundary");
+            } else {
+                decoders::model_case(6, &m.text(0), out, "c15-boundary");
+            }
         }
     }
     for i in 0..n {
